@@ -268,12 +268,13 @@ func c09hist(c *Ctx) {
 		// call issued right after creation and again after each history - with and without call arguments
 		{
 			vr := gen.NewR(c.Seed, "C09v", fmt.Sprint(idx), 0)
-			var lgv *slog.Entry
+			var lgv, par *slog.Entry
 			kind := "root"
 			if vr.P(30) {
 				kind = "child"
-				par := newRoot("par", p.f, w, slog.AlwaysLevel)
-				par.Set("pz", 1, "pa", "x")
+				par = newRoot("par", p.f, w, slog.AlwaysLevel)
+				par.Set("pz", 1, "pa", "x", "zeta", "parent's", "alpha", "parent's") // zeta / alpha may be redefined by the child
+				par.SetTimeFormat("TS")
 				lgv = par.New("kid")
 				lgv.SetWriter(w).SetErrorWriter(w)
 				setFormat(lgv, p.f)
@@ -307,7 +308,23 @@ func c09hist(c *Ctx) {
 				}
 				return b
 			}
+			// the parent's own record, before the child has ever logged and after: what a child prints (and overrides)
+			// is not an input of the parent's record
+			emitP := func() []byte {
+				slog.SetMessageMinimalWidth(p.minW)
+				slog.SetLevelOutputWidth(p.tagW)
+				evs := capture(log, func() { c09verbProbe(par, lv, p.msg, nil) })
+				var b []byte
+				for _, e := range evs {
+					b = append(b, e.Data...)
+				}
+				return b
+			}
 			runtime.GC()
+			var refP []byte
+			if par != nil {
+				refP = emitP()
+			}
 			refV := emitV()
 			for h := 0; h < 3; h++ {
 				n := history(100 + h)
@@ -330,6 +347,23 @@ func c09hist(c *Ctx) {
 					desc := map[string]any{"probe": map[string]any{"format": p.f.String(), "logger": kind, "level": lv.String(), "msg": q(clip(p.msg, 200)), "own_attrs": gen.DescKVs(p.kvs[:half]), "call_args": len(args)}, "history": hdesc, "flags": int64(flagsNow)}
 					c.R.Violation(idx, "bytes-differ", "C09/bytes-differ/same-logger/"+p.f.String(),
 						fmt.Sprintf("the same call on the same logger (own attributes, constant timestamp layout) produced different bytes after a history of %d other records (first difference at byte %d):\n first record: …%s\n after history: …%s", n, at, q(clip(string(refV[lo:]), 300)), q(clip(string(got[lo:]), 300))), desc)
+					return
+				}
+			}
+			if par != nil {
+				c.R.Add("parent_probe_executions", 1)
+				if got := emitP(); !bytes.Equal(got, refP) {
+					at := 0
+					for at < len(got) && at < len(refP) && got[at] == refP[at] {
+						at++
+					}
+					lo := at - 40
+					if lo < 0 {
+						lo = 0
+					}
+					c.R.Violation(idx, "bytes-differ", "C09/bytes-differ/parent-after-child/"+p.f.String(),
+						fmt.Sprintf("the parent's record differs after its child (which redefines some of the parent's keys) has logged (first difference at byte %d):\n before: …%s\n after:  …%s", at, q(clip(string(refP[lo:]), 300)), q(clip(string(got[lo:]), 300))),
+						map[string]any{"format": p.f.String(), "flags": int64(flagsNow), "child_own_attrs": gen.DescKVs(p.kvs[:half])})
 					return
 				}
 			}
